@@ -4,20 +4,20 @@
 EXTENDS ROC, TLC, Json, IOUtils, TLCExt
 
 Log == ndJsonDeserialize(IOEnv.TRACE_FILE)
-VARIABLES l, store
-vars == <<l, store>>
+VARIABLES l, store, last      \* last = what the most recent roc() call returned (as recorded)
+vars == <<l, store, last>>
 Report(e, fails) == \A c \in fails : PrintT(<<"FAILED", e.id, c>>)
 Failing(S) == {p[1] : p \in {q \in S : ~q[2]}}
 IsEvent(op) == l <= Len(Log) /\ Log[l].op = op /\ l' = l + 1
 ObjOfRec(r) == Obj(r.pos, r.neg, r.ep, r.en, r.sc, r.ec)
-Init == l = 1 /\ store = <<>>
+Init == l = 1 /\ store = <<>> /\ last = <<>>
 
 TraceNew ==
   /\ IsEvent("New")
   /\ LET e == Log[l]
          a == e.args
          o == NewObj(a.p, a.n, a.ep, a.en, a.sc, a.ec, a.sorted)
-     IN /\ store' = (e.h :> o) @@ store
+     IN /\ store' = (e.h :> o) @@ store /\ UNCHANGED last
         /\ Report(e, Failing({<<"C15.raised", e.exc = "">>,
                               <<"C15.new_state", e.exc # "" \/ ObjOfRec(e.post) = o>>}))
 
@@ -41,7 +41,7 @@ TraceRoc ==
          fprs == [i \in DOMAIN a.fpr |-> Q(a.fpr[i])]
          thrs == [i \in DOMAIN a.thr |-> T(a.thr[i])]
          model == Support(o, fnrs, fprs, thrs, a.nb, e.x)
-     IN /\ UNCHANGED store
+     IN /\ UNCHANGED store /\ last' = e
         /\ Report(e, Failing({
              <<"C15.raised", e.exc = "">>,
              <<"C15.thresholds_finite", e.exc # "" \/ ok>>,
@@ -67,10 +67,25 @@ TraceRoc ==
 
 (* an unknown x_axis must be rejected                                            *)
 TraceRocBadAxis ==
-  /\ IsEvent("roc_bad_axis") /\ UNCHANGED store
+  /\ IsEvent("roc_bad_axis") /\ UNCHANGED <<store, last>>
   /\ Report(Log[l], Failing({<<"C15.unknown_axis_rejected", Log[l].exc = "ValueError">>}))
 
-Next == TraceNew \/ TraceRoc \/ TraceRocBadAxis
+(* history: after roc() returned, the caller writes into ITS OWN arrays - the thresholds / rates it    *)
+(* passed in and the arrays it read from the derived views - and reads the curve again: the curve    *)
+(* is the same curve                                                                                  *)
+TraceReread ==
+  /\ IsEvent("roc_reread") /\ UNCHANGED <<store, last>>
+  /\ LET e == Log[l]
+         r == e.out
+         p == last.out
+         sameQ(a, b) == Len(a) = Len(b) /\ \A i \in DOMAIN a : a[i] = b[i]
+     IN Report(e, Failing({
+          <<"C15.raised", e.exc = "">>,
+          <<"C15.curve_unchanged_by_callers_later_writes", e.exc # "" \/ last = <<>> \/ last.exc # "" \/
+               (/\ sameQ(r.thr, p.thr) /\ sameQ(r.fnr, p.fnr) /\ sameQ(r.fpr, p.fpr)
+                /\ \A v \in Views : sameQ(r[v], p[v]))>>}))
+
+Next == TraceNew \/ TraceRoc \/ TraceRocBadAxis \/ TraceReread
 Spec == Init /\ [][Next]_vars
 AllConsumed == TLCGet("stats").diameter - 1 = Len(Log)
 =============================================================================
